@@ -1,4 +1,6 @@
 # SPDX-License-Identifier: MIT
+import math
+import struct
 import warnings
 from dataclasses import dataclass, field
 from typing import TYPE_CHECKING, Dict, List, Optional, Tuple
@@ -246,6 +248,17 @@ class EncodeState:
                 bit_length = 64
 
             raw_value = float(internal_value)
+            if base_data_type == DataType.A_FLOAT32:
+                # make sure that the value can be represented using
+                # 32 bits (the bitstruct backends differ in how they
+                # treat overflows)
+                try:
+                    struct.pack(">f", raw_value)
+                except OverflowError:
+                    odxraise(
+                        f"The value '{internal_value!r}' cannot be represented "
+                        f"as a 32 bit floating point number.", EncodeError)
+                    raw_value = math.copysign(math.inf, raw_value)
 
         # If the bit length is zero, encode an empty value
         if bit_length == 0:
